@@ -100,6 +100,28 @@ func execNego(args []string) string {
 			return "bad-op nego-args"
 		}
 		return execNegoHS(parsePD(args[1]), parsePD(args[2]), len(args) > 3 && args[3] == "r")
+	case "hsseq":
+		// one upgrader, several clients one after the other: every handshake is negotiated on its own
+		if len(args) < 3 {
+			return "bad-op nego-args"
+		}
+		up := gws.NewUpgrader(new(gws.BuiltinEventHandler), &gws.ServerOption{PermessageDeflate: parsePD(args[1]), Logger: quietLogger{}})
+		var outs []string
+		for _, cs := range strings.Split(args[2], ";") {
+			server, client, sc, cc, err := handshakeWith(up, &gws.ClientOption{PermessageDeflate: parsePD(cs)}, new(gws.BuiltinEventHandler))
+			if err != nil {
+				return "real-handshake-failed " + strings.Join(strings.Fields(err.Error()), "_")
+			}
+			wo, wov, e1 := wireExtensions(cc.Tap(), true)
+			wr, wrv, e2 := wireExtensions(sc.Tap(), false)
+			if e1 != nil || e2 != nil {
+				return fmt.Sprintf("real-wire-unreadable %v %v", e1, e2)
+			}
+			outs = append(outs, "s="+fmtPD(gws.VerifPD(server))+" c="+fmtPD(gws.VerifPD(client))+" offer="+fmtHdr(wo, wov)+" resp="+fmtHdr(wr, wrv))
+			_ = sc.Close()
+			_ = cc.Close()
+		}
+		return strings.Join(outs, " | ")
 	case "parse":
 		return fmtPD(gws.VerifPermessageNegotiation(string(unhx(args[1]))))
 	case "gen":
@@ -206,6 +228,21 @@ func genNego(g *Gen) {
 		}
 		g.Count("hs")
 		g.Emit("nego hs %s %s%s", s, c, tail)
+	}
+	// one upgrader serving several clients whose offers differ (takeover flags, window bits, enabled or not)
+	for i := 0; i < g.pick(40, 400); i++ {
+		sv := negoSideAt(g.R.Intn(negoSides))
+		sv.e = true
+		sv.th = negoThresholds[g.R.Intn(4)]
+		var cs []string
+		for k := 0; k < 2+g.R.Intn(3); k++ {
+			c := negoSideAt(g.R.Intn(negoSides))
+			c.e = g.R.Intn(5) != 0
+			c.th = negoThresholds[g.R.Intn(4)]
+			cs = append(cs, c.String())
+		}
+		g.Count("hsseq")
+		g.Emit("nego hsseq %s %s", sv, strings.Join(cs, ";"))
 	}
 	randSide := func() negoSide {
 		p := negoSideAt(g.R.Intn(negoSides))
